@@ -161,6 +161,58 @@ CLAIMED["C19"] = dict(
     technique="Lean 4 proof (two inductive invariants per protocol, one preservation lemma per program counter) + E-SHIM trace replay",
     design="§3 C19")
 
+CLAIMED["C02"] = dict(
+    text="Lean 4 theorems (liveness stated as safety over complete schedules): concurrent_monitor, N sleepers x M notifiers, one step per "
+         "atomic access: a sleeper parked with a closed semaphore is still in the waitset or owed a V, and if its predicate is true a V is "
+         "owed or the notifier that made it true has not finished its scan (no lost wake-up at quiescence); abort wakes all; skipped "
+         "wake-ups balanced (never V on an open semaphore); futex binary semaphore loses no V; arena work flag never UNSET with work present "
+         "and no publisher in flight; wait_context sleep protocol; x86-TSO store-buffer model of the 1x1 monitor: no lost wake-up under "
+         "fencesOK(orders), with kernel-checked necessity witnesses for the sleeper's and the notifier's fence, where the orders table is "
+         "regenerated from the memory orders observed in the E-SHIM trace. Tie: the real monitor/semaphore/flag/wait_context run under "
+         "E-SHIM with access-level replay (random + DFS), whole-runtime sleep/enqueue/blocking-queue/mutex scenarios with deadlock detection.",
+    note="Trusted: Lean kernel, standard axioms (TSO closure by decide +kernel, no native_decide), E-SHIM runtime, harness/c02, sampled "
+         "correspondence. OS futex and RML thread start are emulated/not modelled; 'enqueued work eventually runs' is proved up to 'demand "
+         "is registered and parked threads are notified'.",
+    technique="Lean 4 proof (N x M inductive invariant; finite TSO closure; regenerated memory-order table) + E-SHIM trace replay + deadlock detection",
+    design="§3 C02")
+CLAIMED["C09"] = dict(
+    text="Lean 4 theorems for any number of threads and all schedules of the ticket protocol (one step per atomic access): lane mapping is a "
+         "bijection served in order (from the generated phi/n_queue), page ring safe, a pop holding ticket h gets exactly the value published "
+         "under h or skips an invalidated slot, conservation, FIFO linearizability with explicit linearisation points, try_pop/try_push "
+         "truthful, capacity bound, constructor failure isolated — all under the decidable regime `ok` (no abort-undo hazard, no poisoned page); "
+         "abort conservation is proved partial and its negation for the as-coded model is a closed witness. Tie: generated constants, white-box "
+         "differential of lane/page arithmetic, E-SHIM on the real headers + concurrent_bounded_queue.cpp with access-level replay (random + "
+         "DFS), independent monitors incl. a Wing-Gong FIFO linearizability checker.",
+    note="Trusted: Lean kernel, standard axioms, E-SHIM, harness/c09, sampled correspondence. Four genuine defects are listed in "
+         "KNOWN_FINDINGS.txt (abort vs new pop ticket, page-allocation failure then pop, capacity after failed push, pop skipping an invalid "
+         "ticket without notify) and demonstrated deterministically on every run; one more was repaired (set_capacity(-1)).",
+    technique="Lean 4 proof (ticket-protocol invariants, stamped linearisation) + generated constants + E-SHIM trace replay + linearizability monitor",
+    design="§3 C09, §4 F3")
+CLAIMED["C17"] = dict(
+    text="Lean 4 theorems over constants and guards regenerated from the tbbmalloc sources: every request 1..8128 has a bin whose object size "
+         "covers it, consistent indices, alignment of object sizes (8 / 16 / 64), objects of a slab are disjoint, inside the slab, clear of "
+         "the header and aligned like their class, the aligned-allocation case split is sound for every 64-bit size and power-of-two "
+         "alignment, aligned results fit and interior pointers map back, large-object placement stays inside its block incl. the 32-bit "
+         "offset field, the shadow heap stays disjoint, and the slab owner/foreign-free protocol never hands out a live object under any "
+         "schedule. Tie: exhaustive white-box differential over all small sizes x alignments against the real frontend.cpp, real-library "
+         "multi-threaded histories checked by an independent shadow-heap monitor.",
+    note="Trusted: Lean kernel, standard axioms (two whole finite tables by decide +kernel), checks/cexpr.py translation of guards, harness/c17, "
+         "sampled correspondence. The back end (coalescing, bins, regions) and back-reference table are not modelled; realloc content "
+         "preservation is monitored only.",
+    technique="Lean 4 proof (arithmetic over generated constants/guards; protocol invariant) + exhaustive differential + shadow-heap monitor",
+    design="§3 C17")
+CLAIMED["C18"] = dict(
+    text="Lean 4 theorems over guards regenerated from the source text: calloc rejects exactly when nobj*size >= 2^64, the large-object size "
+         "computation returns null before allocating whenever size+headers+alignment or its bin rounding reaches 2^64 and otherwise is the "
+         "true rounding, aligned sums cannot wrap, EINVAL exactly for non-powers-of-two, pool ledger (blocks inside owned regions, a region "
+         "is returned at most once). Tie: boundary differential near SIZE_MAX against the real code, fault enumeration on the real library "
+         "(k-th raw callback / mmap fails: one-shot, windowed, persistent, with recovery) with ledger validation, standing probes for the "
+         "three repaired defects.",
+    note="Trusted: Lean kernel, standard axioms, checks/cexpr.py, harness/c18 (interposed mmap/munmap, pool callbacks), sampled correspondence. "
+         "The back-end retry ladder is explored, not modelled. Three genuine defects found by this check were repaired (fixed: lines).",
+    technique="Lean 4 proof (64-bit wrap-around arithmetic over regenerated guards; ledger spec) + fault enumeration + differential",
+    design="§3 C18")
+
 NOT_YET = "check not built yet in this round (planned: DESIGN.md §3); no claim is made"
 
 
